@@ -443,6 +443,35 @@ func runReqAbandonQueuedResend(c *Ctx, viaTimer bool) {
 	e.Finish()
 }
 
+// directed (C18): "a call that can complete at once is not failed by the deadline": a Send that was accepted at once leaves
+// no deadline behind — the request is still outstanding when the send deadline has long passed, and its reply is delivered
+func runReqSendDeadlineLeavesNothing(c *Ctx, sendMs, recvMs int) {
+	e := NewExec(c, "m.req", req.NewProtocol(), "req")
+	e.timed, e.canonIDs = true, true
+	e.AddPipe(901)
+	e.SetOpt(0, mangos.OptionRetryTime, "60000", time.Minute)
+	e.SetOpt(0, mangos.OptionSendDeadline, fmt.Sprint(sendMs), time.Duration(sendMs)*time.Millisecond)
+	e.SetOpt(0, mangos.OptionRecvDeadline, fmt.Sprint(recvMs), time.Duration(recvMs)*time.Millisecond)
+	e.Send(0, nil, []byte{0x71, 0, 1})
+	if !e.idKnown {
+		e.Finish()
+		return
+	}
+	rcv := e.Recv(0)
+	e.Sleep(sendMs + 50) // the send deadline of the Send that succeeded at once is long past
+	e.InjectCanon(901, append(be32(0x80000001), 'o', 'k'))
+	got := false
+	for _, ev := range splitEvents(lastObs(e)) {
+		if ev.kind == "ret" && ev.call == rcv && ev.msg != nil {
+			got = true
+		}
+	}
+	if !got && !e.broken {
+		c.Violate(fmt.Sprintf("REQ: a request whose Send was accepted at once (send deadline %d ms) was no longer outstanding %d ms later: its reply was not delivered to the waiting Recv (receive deadline %d ms): %s", sendMs, sendMs+50, recvMs, lastObs(e)), e.Replay())
+	}
+	e.Finish()
+}
+
 func runC03(c *Ctx) {
 	c.Rep.Rule = "random histories on a real REQ protocol instance whose REP peers are played by the harness at message level: Send/Recv/Close on 1-3 contexts, replies carrying the current / a stale, cancelled, answered or other context's / a never-issued id, ids without the request bit, short bodies, duplicates, on any of 1-3 pipes; " +
 		"ids canonicalised to 0x80000000|k; every operation is checked against the Lean machine and every delivered reply against the context's current request; class = (operation, shape of outcome)"
